@@ -395,6 +395,10 @@ def run(ctx):
                 cfg.append((mname, flux, r, ctx.tier))
     cfg.sort(key=lambda c: c[0] != "euler1d")
     ctx.pmap("operator-1d", shard_op1d, cfg)
+    first = {}
+    for c in cfg:
+        first.setdefault((c[0], c[2]), c)
+    ctx.pmap("operator-1d-reused-objects", core.Pooled(shard_op1d), list(first.values()) if not th else cfg)
     ctx.pmap("operator-2d", shard_op2d, [(fl, r, ctx.tier) for fl in space.fluxes(space.euler.euler2d()) for r in space.X2_ALL])
     cfg3 = [(i, s) for i in space.integrators() for s in range(len(SOLVE_SYS))]
     cfg3.sort(key=lambda c: not space.is_implicit(space.integrators()[c[0]]))
